@@ -1,0 +1,54 @@
+//go:build verif
+// +build verif
+
+package syncer
+
+import (
+	"github.com/pingcap/kvproto/pkg/pdpb"
+	"github.com/tikv/pd/server/core"
+	"github.com/tikv/pd/server/kv"
+)
+
+// VerifHistoryBuffer exposes the unexported history buffer (verification hook).
+type VerifHistoryBuffer struct{ h *historyBuffer }
+
+// VerifNewHistoryBuffer creates a history buffer of the given capacity on kv.
+func VerifNewHistoryBuffer(size int, kv kv.Base) *VerifHistoryBuffer {
+	return &VerifHistoryBuffer{h: newHistoryBuffer(size, kv)}
+}
+
+// Record appends a record.
+func (v *VerifHistoryBuffer) Record(r *core.RegionInfo) { v.h.Record(r) }
+
+// RecordsFrom returns the records from index.
+func (v *VerifHistoryBuffer) RecordsFrom(index uint64) []*core.RegionInfo {
+	return v.h.RecordsFrom(index)
+}
+
+// ResetWithIndex resets the buffer.
+func (v *VerifHistoryBuffer) ResetWithIndex(index uint64) { v.h.ResetWithIndex(index) }
+
+// NextIndex returns the next index.
+func (v *VerifHistoryBuffer) NextIndex() uint64 { return v.h.GetNextIndex() }
+
+// FirstIndex returns the first index of the window.
+func (v *VerifHistoryBuffer) FirstIndex() uint64 {
+	v.h.RLock()
+	defer v.h.RUnlock()
+	return v.h.firstIndex()
+}
+
+// Len returns the number of records held.
+func (v *VerifHistoryBuffer) Len() int {
+	v.h.RLock()
+	defer v.h.RUnlock()
+	return v.h.len()
+}
+
+// VerifSyncHistoryRegion calls syncHistoryRegion (verification hook).
+func (s *RegionSyncer) VerifSyncHistoryRegion(request *pdpb.SyncRegionRequest, stream pdpb.PD_SyncRegionsServer) error {
+	return s.syncHistoryRegion(request, stream)
+}
+
+// VerifHistory returns the syncer's own history buffer (verification hook).
+func (s *RegionSyncer) VerifHistory() *VerifHistoryBuffer { return &VerifHistoryBuffer{h: s.history} }
